@@ -82,6 +82,29 @@ func encodeCases(e *Env, t *schema.Type) []ecase {
 		fv.Set(reflect.Zero(fv.Type()))
 		cs = append(cs, ecase{"nil-nested-part:" + name, m})
 	}
+	// dense sweeps: every text length 0..2200 for each prefixed-text field and every element count 0..1100 for
+	// one list field per type (fixed-size scratch buffers and "short value" fast paths fail at ONE length)
+	for _, s := range lenSites(t) {
+		if s.what == "text-length" || s.what == "element-text-length" {
+			g := e.Gen(&gen.Opts{Lens: []int{1}, StrLens: []int{2}}, t.QName, "sweep", s.field.Name)
+			for n := 0; n <= 2200; n++ {
+				m := g.Value(t)
+				setLen(e, t, m, s, n, g)
+				cs = append(cs, ecase{fmt.Sprintf("text-length-sweep:%s", s.field.Name), m})
+			}
+		}
+	}
+	for _, s := range lenSites(t) {
+		if s.what == "count" {
+			g := e.Gen(&gen.Opts{Lens: []int{1}, StrLens: []int{2}}, t.QName, "sweep", s.field.Name)
+			for n := 0; n <= 1100; n += 1 + n/256 {
+				m := g.Value(t)
+				setLen(e, t, m, s, n, g)
+				cs = append(cs, ecase{fmt.Sprintf("count-sweep:%s", s.field.Name), m})
+			}
+			break
+		}
+	}
 	// very long lists / texts (thorough: 70 000 elements)
 	if hasList(e, t, map[string]bool{}) {
 		ls := []int{300}
@@ -147,7 +170,7 @@ func c17Child(e *Env, ca childArgs) {
 			h := val.Hash(c.msg)
 			// destination buffer: fresh, or one of the histories H2..H7 (earlier frames, partly consumed,
 			// garbage in spare capacity, nearly full) - a panic is a panic wherever the frame starts
-			hk := ci % 7
+			hk := ci % nHist
 			room := 0
 			if fi := frameOf(t); fi != nil {
 				room = fi.hdr
@@ -162,7 +185,7 @@ func c17Child(e *Env, ca childArgs) {
 			r.Evals(1)
 			kinds[c.kind]++
 			if p != nil {
-				r.Violate("C17/encode-panic/"+t.QName+"/"+strings.SplitN(c.kind, ":", 2)[0], "C17/encode-panic/"+t.QName, map[string]any{"type": t.QName, "case": ci, "kind": c.kind, "buffer_history": histNames[ci%7], "value": summary, "panic": p.Value, "stack": p.Stack})
+				r.Violate("C17/encode-panic/"+t.QName+"/"+strings.SplitN(c.kind, ":", 2)[0], "C17/encode-panic/"+t.QName, map[string]any{"type": t.QName, "case": ci, "kind": c.kind, "buffer_history": histNames[ci%nHist], "value": summary, "panic": p.Value, "stack": p.Stack})
 				continue
 			}
 			if err != nil {
@@ -228,7 +251,7 @@ func c17(e *Env) {
 		return
 	}
 	r := e.R
-	r.Rule("every type × {zero value, constructor result, arbitrary values (numbers of any bit pattern, text of any length incl. over-long and all-pad, lists of 0..17 elements, nil nested parts, nil/mismatched bodies; thorough: 70 000-element lists), every registered key with a nil body/extension, unregistered keys with and without a body, each nested pointer part nil in turn} × destination buffer history H1..H7 (fresh, random content, earlier frames filling most of the capacity, partly consumed, drained, garbage in spare capacity, header-sized spare capacity); plus every checksummed frame encoded four times in a row while its checksum service is unregistered (Remove / Clear); values with nil list elements or typed-nil bodies are excluded, as the property says. distinct_nontrivial = distinct structural hashes of the values encoded")
+	r.Rule("every type × {zero value, constructor result, arbitrary values (numbers of any bit pattern, text of any length incl. over-long and all-pad, lists of 0..17 elements, nil nested parts, nil/mismatched bodies; thorough: 70 000-element lists), every registered key with a nil body/extension, unregistered keys with and without a body, each nested pointer part nil in turn, every text length 0..2200 of every prefixed-text field, element counts 0..1100 of one list field per type} × destination buffer history H1..H7 (fresh, random content, earlier frames filling most of the capacity, partly consumed, drained, garbage in spare capacity, header-sized spare capacity); plus every checksummed frame encoded four times in a row while its checksum service is unregistered (Remove / Clear); values with nil list elements or typed-nil bodies are excluded, as the property says. distinct_nontrivial = distinct structural hashes of the values encoded")
 	r.Explain("Oracle: Encode returns normally — nil error with bytes appended, or a non-nil error; a recovered panic or the death of the (child) process is a violation, with the pre-logged in-flight value as witness.")
 	r.Assume("values not generated are not covered")
 	outs := runChildren(e, e.Workers, 300*time.Second)
